@@ -108,6 +108,7 @@ class ArrObj:
     def __init__(self, name, shape, base=None, sort=RS):
         self.name = name
         self.shape = tuple(shape)
+        self.sort = sort
         self.uid = next(ArrObj._ids)
         if base is None:
             f = z3.Function(f'{name}', *([I] * len(self.shape)), sort)
@@ -264,6 +265,7 @@ class Ex:
         self.arrays = []                 # every ArrObj created / bound
         self.region_writes = []
         self.first_index_facts = []
+        self.while_obligations = []
         self._solver = None
         self._solver_n = -1
         self.depth = 0
@@ -302,8 +304,8 @@ class Ex:
             return None
         return z3.And(*self.guards) if len(self.guards) > 1 else self.guards[0]
 
-    def new_array(self, name, shape, base=None):
-        a = ArrObj(name, shape, base)
+    def new_array(self, name, shape, base=None, sort=RS):
+        a = ArrObj(name, shape, base, sort)
         self.arrays.append(a)
         return a
 
@@ -727,15 +729,19 @@ class Ex:
         if name in ('np.zeros', 'np.ones', 'np.empty'):
             shp = self.ev(n.args[0])
             shp = shp if isinstance(shp, tuple) else (shp,)
+            is_int = any(k.arg == 'dtype' and 'int' in ast.unparse(k.value) for k in n.keywords)
             fill = {'np.zeros': z3.RealVal(0), 'np.ones': z3.RealVal(1), 'np.empty': None}[name]
+            if is_int:
+                fill = None if fill is None else z3.IntVal(0 if name == 'np.zeros' else 1)
             if len(shp) == 1 and as_int(shp[0]) is not None and as_int(shp[0]) <= 64:
                 k = as_int(shp[0])
                 if fill is None:
                     return LocalArr([z3.Real(f'{self.fp}empty{next(self.fresh)}') for _ in range(k)])
                 return LocalArr([fill] * k)
+            srt = I if is_int else RS
             if fill is None:
-                return self.new_array(f'{self.fp}empty{next(self.fresh)}', shp)
-            return self.new_array(f'{self.fp}const{next(self.fresh)}', shp, base=lambda *i, fill=fill: fill)
+                return self.new_array(f'{self.fp}empty{next(self.fresh)}', shp, sort=srt)
+            return self.new_array(f'{self.fp}const{next(self.fresh)}', shp, base=lambda *i, fill=fill: fill, sort=srt)
         if name == 'np.array':
             v = self.ev(n.args[0])
             return LocalArr(list(v))
@@ -883,7 +889,7 @@ class Ex:
         if isinstance(a, ArrObj):
             idx = [R(self.norm_index(i, d)) for i, d in zip(idx, a.shape)]
             self.record_bounds(a, idx, node, 'write')
-            a.st = a.st.write(g, idx, toreal(val))
+            a.st = a.st.write(g, idx, R(val) if a.sort == I else toreal(val))
             return
         raise OutsideSubset('store target')
 
@@ -922,7 +928,67 @@ class Ex:
             a = [a[0], a[1], 1]
         return a
 
+    def st_While(self, s):
+        """while loop with an invariant supplied by the contract (policy ('inv', label, opts)): the scalars assigned in the
+        body are havocked, the invariant and the negated test are assumed afterwards; initiation and preservation are
+        recorded as obligations for the contract to discharge."""
+        pol = self.loops.get(self.loop_ordinal(s))
+        if pol is None or pol[0] != 'inv':
+            raise OutsideSubset(f'while loop {self.loop_ordinal(s)} (line {s.lineno}) without invariant')
+        label, opts = pol[1], pol[2]
+        inv = opts['inv']
+        if self.guards:
+            g = self.guard()
+        else:
+            g = None
+        hy = self.hyps()
+        self.while_obligations.append((label + '/invariant_holds_at_entry', list(hy), z3.And(*inv(self.env))))
+        scal, arrs = self.loop_modified(s)
+        if arrs:
+            raise OutsideSubset('while loop writes arrays')
+        old = dict(self.env)
+        for name in sorted(scal):
+            if name in self.env and not self.arrlike(self.env[name]) and not isinstance(self.env[name], (tuple, Opaque)):
+                self.env[name] = z3.Const(f'{self.fp}{name}_w{next(self.fresh)}', R(self.env[name]).sort())
+        # generic iteration: invariant + test |- invariant after the body, variant decreases
+        test = self.tobool(self.ev(s.test))
+        pre_inv = inv(self.env)
+        sub_env = dict(self.env)
+        saved = (self.env, list(self.pc), list(self.guards))
+        self.pc = hy + pre_inv + [test]
+        self.guards = []
+        self.env = dict(sub_env)
+        self.run(s.body)
+        post_inv = inv(self.env)
+        var = opts.get('variant')
+        goal = z3.And(*post_inv)
+        if var is not None:
+            goal = z3.And(goal, var(self.env) < var(sub_env), var(sub_env) >= 0)
+        self.while_obligations.append((label + '/invariant_preserved_and_variant_decreases', list(self.pc), goal))
+        self.env, self.pc, self.guards = saved
+        # after the loop: invariant and negated test (under the current guard)
+        facts = z3.And(*pre_inv, z3.Not(test))
+        self.pc.append(facts if g is None else z3.Implies(g, facts))
+        if g is not None:
+            # when the guard is false the loop is not executed: variables keep their values
+            for name in sorted(scal):
+                if name in old and not self.arrlike(old[name]) and not isinstance(old[name], (tuple, Opaque)):
+                    self.env[name] = self.ite(g, self.env[name], old[name])
+
     def st_For(self, s):
+        if isinstance(s.iter, ast.Call) and isinstance(s.iter.func, ast.Name) and s.iter.func.id == 'enumerate' \
+                and isinstance(s.target, ast.Tuple) and len(s.target.elts) == 2:
+            # for i, v in enumerate(arr):  ==  for i in range(len(arr)): v = arr[i]
+            arr_node = s.iter.args[0]
+            new = ast.For(target=s.target.elts[0],
+                          iter=ast.Call(func=ast.Name(id='range', ctx=ast.Load()),
+                                        args=[ast.Call(func=ast.Name(id='len', ctx=ast.Load()), args=[arr_node], keywords=[])], keywords=[]),
+                          body=[ast.Assign(targets=[s.target.elts[1]],
+                                           value=ast.Subscript(value=arr_node, slice=s.target.elts[0], ctx=ast.Load()), lineno=s.lineno)] + s.body,
+                          orelse=[], lineno=s.lineno)
+            ast.fix_missing_locations(new)
+            self.loop_index[id(new)] = self.loop_index.get(id(s))
+            return self.st_For(new)
         lo, hi, step = self.range_args(s.iter)
         pol = self.loops.get(self.loop_ordinal(s))
         clo, chi, cst = as_int(lo), as_int(hi), as_int(step)
@@ -1053,7 +1119,7 @@ class Ex:
                 if custom is not None:
                     v.st = ArrState(custom(self, v, n_it))
                 else:
-                    f = z3.Function(f'{v.name}_g{next(self.fresh)}', *([I] * v.ndim), RS)
+                    f = z3.Function(f'{v.name}_g{next(self.fresh)}', *([I] * v.ndim), getattr(v, 'sort', RS))
                     v.st = ArrState(f)
             elif isinstance(v, LocalArr):
                 if custom is not None:
@@ -1081,7 +1147,7 @@ class Ex:
         for a in self.arrays:
             st_entry = entry['arr'].get(a.uid)
             if st_entry is not None and a.st is not st_entry:
-                f = z3.Function(f'{a.name}_h{next(self.fresh)}', *([I] * a.ndim), RS)
+                f = z3.Function(f'{a.name}_h{next(self.fresh)}', *([I] * a.ndim), getattr(a, 'sort', RS))
                 a.st = ArrState(f)
         for k, v in list(self.env.items()):
             if k in entry['env'] and entry['env'][k] is not v and not self.arrlike(v):
@@ -1136,6 +1202,7 @@ def _inline(self, fnode, args, callnode=None, outer_env=None):
     sub.env = dict(outer_env or {})
     sub.env.update(zip(params, args))
     sub.first_index_facts = self.first_index_facts
+    sub.while_obligations = self.while_obligations
     try:
         sub.run(intake.strip_doc(fnode.body))
     except _Return:
